@@ -5,6 +5,10 @@ package ice
 // Read call (all chunkings, injected error), against a reference deframer.
 
 import (
+	"sync"
+	"strings"
+	"testing/synctest"
+	"testing"
 	"bytes"
 	"context"
 	"encoding/binary"
@@ -440,6 +444,22 @@ func checkC14(c *runCtx) {
 			}
 		}
 	}
+	// the sending side through the user: every packet of up to receiveMTU bytes that WriteTo accepted is on the wire as
+	// one RFC 4571 frame, in order — directly and through the buffered writer (TCPMuxParams.WriteBufferSize > 0)
+	for _, wb := range []int{0, 1 << 20} {
+		for _, sizes := range [][]int{{1, 255, 7}, {8189, 7}, {8190, 7}, {8191, 7}, {8192, 7}, {100, 8190, 8191, 8192, 7, 8192, 1}, {8193, 7}, {9000, 7, 65535, 1}} {
+			problem := c14sendSide(c.t, wb, sizes)
+			evals++
+			nontrivial++
+			if problem != "" {
+				finding := ""
+				if wb > 0 && strings.Contains(problem, "frames on the wire") {
+					finding = "S33"
+				}
+				report("tcpPacketConn sending side", fmt.Sprintf("write buffer %d, packets of %v bytes: %s", wb, sizes, problem), map[string]any{"write_buffer": wb, "sizes": sizes}, finding)
+			}
+		}
+	}
 	// hostile streams through the user: a frame larger than the receive buffer (whose body looks like well-formed
 	// frames), truncated frames, garbage. Exactly the packets before the offending frame are delivered, then the stream is closed.
 	evil := c14frame([]byte("EVIL"), []byte("MORE"))
@@ -537,6 +557,92 @@ func c14roundTrip(stream []byte, want [][]byte, answer func(req, rem int) (int, 
 
 	return ""
 }
+
+// c14sendSide writes packets through tcpPacketConn.WriteTo to a stream that records what it is given.
+func c14sendSide(t *testing.T, writeBuffer int, sizes []int) (problem string) {
+	inBubble(t, func() {
+		pc := newTCPPacketConn(tcpPacketParams{ReadBuffer: 64, WriteBuffer: writeBuffer, LocalAddr: &net.TCPAddr{IP: net.IPv4(10, 0, 0, 1), Port: 1}, Logger: nopLogger{}})
+		conn := &c14sink{done: make(chan struct{})}
+		if err := pc.AddConn(conn, nil); err != nil {
+			problem = "AddConn: " + err.Error()
+
+			return
+		}
+		var want []int
+		var wantP [][]byte
+		for i, l := range sizes {
+			p := c14payload(l, byte(3*i+1))
+			n, err := pc.WriteTo(p, conn.RemoteAddr())
+			if err == nil && n == l {
+				want = append(want, l)
+				wantP = append(wantP, p)
+			} else if err == nil || l <= receiveMTU { // (a longer packet may be refused, with an error)
+				problem = fmt.Sprintf("WriteTo(%d bytes) = %d, %v", l, n, err)
+			}
+		}
+		synctest.Wait()
+		conn.mu.Lock()
+		wire := append([]byte{}, conn.wire...)
+		conn.mu.Unlock()
+		var got []int
+		var gotP [][]byte
+		for len(wire) >= 2 {
+			l := int(wire[0])<<8 | int(wire[1])
+			if len(wire) < 2+l {
+				got = append(got, -1) // a frame that announces more than follows
+
+				break
+			}
+			got = append(got, l)
+			gotP = append(gotP, wire[2:2+l])
+			wire = wire[2+l:]
+		}
+		if len(wire) == 1 {
+			got = append(got, -2) // a dangling header byte
+		}
+		// every accepted packet of up to receiveMTU bytes is on the wire, in order and unchanged; a longer one (which the
+		// framing allows and the buffered writer does not carry) is there whole or not at all
+		k := 0
+		for i, p := range wantP {
+			if k < len(gotP) && bytes.Equal(gotP[k], p) {
+				k++
+			} else if len(p) <= receiveMTU && problem == "" {
+				problem = fmt.Sprintf("frames on the wire %v, packets accepted by WriteTo %v (packet %d is missing or changed)", got, want, i)
+			}
+		}
+		if (k != len(gotP) || len(got) != len(gotP)) && problem == "" {
+			problem = fmt.Sprintf("frames on the wire %v, packets accepted by WriteTo %v (the stream carries something that was not written)", got, want)
+		}
+		_ = pc.Close()
+		_ = conn.Close()
+		synctest.Wait()
+	})
+
+	return problem
+}
+
+// c14sink: a stream whose peer sends nothing and records what it is given.
+type c14sink struct {
+	mu   sync.Mutex
+	wire []byte
+	done chan struct{}
+	once sync.Once
+}
+
+func (c *c14sink) Read([]byte) (int, error) { <-c.done; return 0, net.ErrClosed }
+func (c *c14sink) Write(b []byte) (int, error) {
+	c.mu.Lock()
+	defer c.mu.Unlock()
+	c.wire = append(c.wire, b...)
+
+	return len(b), nil
+}
+func (c *c14sink) Close() error                     { c.once.Do(func() { close(c.done) }); return nil }
+func (c *c14sink) LocalAddr() net.Addr              { return &net.TCPAddr{IP: net.IPv4(10, 0, 0, 1), Port: 1} }
+func (c *c14sink) RemoteAddr() net.Addr             { return &net.TCPAddr{IP: net.IPv4(10, 0, 0, 2), Port: 2} }
+func (c *c14sink) SetDeadline(time.Time) error      { return nil }
+func (c *c14sink) SetReadDeadline(time.Time) error  { return nil }
+func (c *c14sink) SetWriteDeadline(time.Time) error { return nil }
 
 // c14active runs one scenario of the dialing side against a loopback listener owned by the harness.
 func c14active(scenario string) string {
